@@ -985,6 +985,9 @@ pub fn run_c10(cfg: &Config) -> i32 {
 		rep
 	});
 	total.merge(rep);
+	if cfg!(miri) {
+		eprintln!("miri progress: C10 documents and rewritings done after {:.0} s", started.elapsed().as_secs_f64());
+	}
 	// canonicalize / edit in place / canonicalize again, and deeply nested documents
 	let n = cfg.budget(25_000, 2_000_000);
 	let rep = parallel(cfg.threads, shards, |i| {
@@ -1022,6 +1025,9 @@ pub fn run_c10(cfg: &Config) -> i32 {
 		rep
 	});
 	total.merge(rep);
+	if cfg!(miri) {
+		eprintln!("miri progress: C10 edit sequences and deep documents done after {:.0} s", started.elapsed().as_secs_f64());
+	}
 	// numerically equal spellings of single numbers (including the zeros)
 	let n = cfg.budget(100_000, 5_000_000);
 	let rep = parallel(cfg.threads, shards, |i| {
@@ -1056,6 +1062,9 @@ pub fn run_c10(cfg: &Config) -> i32 {
 		rep
 	});
 	total.merge(rep);
+	if cfg!(miri) {
+		eprintln!("miri progress: C10 number respellings done after {:.0} s", started.elapsed().as_secs_f64());
+	}
 	conclude(
 		cfg,
 		EvidenceMeta {
